@@ -513,6 +513,7 @@ def fam_builtins():
         out.append(("blt:of-arr:" + b, 'print("x"); %s([1, 2])' % b))
     out += [
         ("blt:print-array-empty-elements", 'functie niets() { }; print("{}", ["", "a", "b"]); print(["", ""]); print([["", 2], 3]); print([niets(), 1, 2]); print(["a", "", "b", niets()]); [string(["", 1]), string([niets()])]'),
+        ("blt:print-self-containing-list", 'stel a = [1, 0]; a[1] = a; print(a); print("{} {}", [a], 2); stel b = [a, 2]; a[0] = b; print(b); stel s = [3]; print([s, s, [s]]); lengte(a)'),
         ("blt:print-array-nested", 'print([[], [[]], [1, [2, [3, "x"]]], "s"]); print("{}-{}", [1.5, ja], [nee, [0 - 1]]); string([[1, 2], "t", [ja]])'),
     ]
     out += [
